@@ -278,13 +278,25 @@ func c14Run(env *core.Env, idx int) *core.CaseResult {
 	execIn = func(open *access.Transaction, st stmt) (aborted bool, shape string, panicMsg string) {
 		before := pinVector(db)
 		var rr sqlx.Result
+		// one SELECT in four runs below a LIMIT node built through the plan API (1-3 rows): its executors are abandoned half way
+		limited := uint32(0)
+		if strings.HasPrefix(st.sql, "SELECT") && st.kind != "plan-error" && r.Intn(4) == 0 {
+			limited = uint32(1 + r.Intn(3))
+			res.Add("statements_cut_short_by_a_limit_node", 1)
+		}
+		run := func(txn *access.Transaction) sqlx.Result {
+			if limited > 0 {
+				return db.ExecLimited(txn, st.sql, limited)
+			}
+			return db.Exec(txn, st.sql)
+		}
 		msg, panicked := guarded(func() {
 			if open != nil {
-				rr = db.Exec(open, st.sql)
+				rr = run(open)
 				return
 			}
 			txn := db.Begin()
-			rr = db.Exec(txn, st.sql)
+			rr = run(txn)
 			if rr.Aborted {
 				db.Abort(txn)
 			} else {
@@ -310,6 +322,9 @@ func c14Run(env *core.Env, idx int) *core.CaseResult {
 		}
 		if d != "" {
 			tags := []string{"kind-" + st.kind}
+			if limited > 0 {
+				tags = append(tags, "limit-node-above")
+			}
 			if open != nil {
 				tags = append(tags, "in-multi-statement-txn")
 			}
